@@ -4,7 +4,7 @@ import os, subprocess, sys, hashlib, json, shutil
 
 VERIF = os.path.dirname(os.path.dirname(os.path.abspath(__file__)))
 REPO = os.environ.get("VERIF_REPO", "/repo")
-CACHE = os.path.join(VERIF, ".cache")
+CACHE = os.environ.get("VERIF_CACHE") or os.path.join(VERIF, ".cache")
 XCP_TARGET = os.path.join(CACHE, "xcp-target")
 SIM_TARGET = os.path.join(CACHE, "sim-target")
 PROBE_TARGET = os.path.join(CACHE, "probe-target")
@@ -47,7 +47,23 @@ def build_xcp():
 
 
 def build_probe():
-    _run(["cargo", "build", "--release", "--offline", "--manifest-path", os.path.join(VERIF, "probe", "Cargo.toml"),
+    """the probe links libxcp and libfs of the repository under test by path; its manifest is generated from
+    probe/Cargo.toml with that path substituted (VERIF_REPO) so that background runs on a snapshot and seeded-change
+    runs in a scratch worktree never touch /repo"""
+    src = os.path.join(VERIF, "probe")
+    man = open(os.path.join(src, "Cargo.toml")).read()
+    if REPO == "/repo":
+        mpath = os.path.join(src, "Cargo.toml")
+    else:
+        d = os.path.join(CACHE, "probe-manifest")
+        os.makedirs(d, exist_ok=True)
+        man = man.replace('"/repo/', '"%s/' % REPO)
+        man += '\n[[bin]]\nname = "xcpprobe"\npath = "%s/src/main.rs"\n' % src
+        mpath = os.path.join(d, "Cargo.toml")
+        if not os.path.exists(mpath) or open(mpath).read() != man:
+            open(mpath, "w").write(man)
+        shutil.copy(os.path.join(src, "Cargo.lock"), os.path.join(d, "Cargo.lock"))
+    _run(["cargo", "build", "--release", "--offline", "--manifest-path", mpath,
           "--target-dir", PROBE_TARGET], what="probe")
     return PROBE
 
